@@ -166,9 +166,15 @@ class Bench:
             return
         net = self.net
         if kind == "force":
-            tasks._PyTask(self.client.disconnect(force=True), loop=self.loop, name="cdisc", eager_start=True)
+            ph = self.phase()
+            t = tasks._PyTask(self.client.disconnect(force=True), loop=self.loop, name="cdisc", eager_start=True)
+            # disconnect(force=True) is synchronous: once it has returned, at ANY stage, the connection it found is closed
+            if t.done() and c.connection_state is not ac.CONNECTION_STATE_CLOSED:
+                self.bad.append(("disconnect-no-effect", f"disconnect(force=True) called in phase {ph} returned and left the "
+                                                         f"connection in state {STATE[c.connection_state]}"))
         elif kind == "disconnect":
             self._disc = tasks._PyTask(self.client.disconnect(), loop=self.loop, name="cdisc", eager_start=True)
+            self._disc_conn, self._disc_phase = c, self.phase()
         elif kind == "eof":
             if net.eof() == "skipped":
                 c.force_disconnect()
@@ -271,6 +277,14 @@ class Bench:
     def idle(self):
         self.loop.run_idle()
         self.sync()
+        d = getattr(self, "_disc", None)
+        if d is not None and d.done():
+            # a graceful disconnect() that has returned (whatever it met on the way) leaves its connection closed
+            dc = self._disc_conn
+            if dc.connection_state is not ac.CONNECTION_STATE_CLOSED:
+                self.bad.append(("disconnect-no-effect", f"disconnect() called in phase {self._disc_phase} returned and left the "
+                                                         f"connection in state {STATE[dc.connection_state]}"))
+            self._disc = None
         c = getattr(self, "pending_close", None)
         if c is not None and c.connection_state is ac.CONNECTION_STATE_CLOSED:
             self.pending_close = None
